@@ -26,9 +26,9 @@ func TestVerifC17Server(t *testing.T) {
 	r := vNewRand(vSeed() + 17)
 	rounds := vEnvInt("VERIF_N", 3)
 	type conf struct {
-		name     string
-		maxMsgs  int
-		maxTime  time.Duration
+		name    string
+		maxMsgs int
+		maxTime time.Duration
 	}
 	confs := []conf{{"nobatch", 1, 0}, {"batch-nowait", 8, 0}, {"batch-wait", 8, 40 * time.Millisecond}}
 	id := 0
